@@ -312,6 +312,9 @@ func genSrvAcct(p *prng, thorough bool, w *bufio.Writer) {
 	g.frame(frameBytes(0, 9, sid, padded(nil, 5))) // padding only, END_STREAM
 	g.done(sid, respGen{status: 200, body: "none"})
 	g.gauges()
+
+	// 7. a header field that never ends: the octets held at 4*MaxHeaderListSize - 1, exactly there, one more (F68)
+	genHeldFields(g, thorough, true)
 	g.line("srv %s end", g.id)
 }
 
